@@ -499,9 +499,9 @@ pub mod imports {
     /// `UseSegment::remove_alias`
     pub fn remove_alias(seg: &str, style_edition: StyleEdition) -> Option<String> {
         let seg = decode_segment(seg, style_edition)?;
-        Some(encode_segment(
-            &crate::imports::verif_local::remove_alias(&seg),
-        ))
+        Some(encode_segment(&crate::imports::verif_local::remove_alias(
+            &seg,
+        )))
     }
 
     /// `UseTree::cmp`
@@ -557,15 +557,19 @@ pub mod imports {
         style_edition: StyleEdition,
         edition: Edition,
     ) -> Result<Vec<String>, String> {
-        with_parsed(src, &config_for(style_edition, edition), |krate, visitor| {
-            let context = visitor.get_context();
-            krate
-                .items
-                .iter()
-                .filter_map(|item| UseTree::from_ast_with_normalization(&context, item))
-                .map(|t| encode_tree(&t))
-                .collect()
-        })
+        with_parsed(
+            src,
+            &config_for(style_edition, edition),
+            |krate, visitor| {
+                let context = visitor.get_context();
+                krate
+                    .items
+                    .iter()
+                    .filter_map(|item| UseTree::from_ast_with_normalization(&context, item))
+                    .map(|t| encode_tree(&t))
+                    .collect()
+            },
+        )
     }
 
     /// `UseTree::from_ast` of every top-level `use` item of `src` WITHOUT `normalize()`: nested
@@ -575,15 +579,19 @@ pub mod imports {
         style_edition: StyleEdition,
         edition: Edition,
     ) -> Result<Vec<String>, String> {
-        with_parsed(src, &config_for(style_edition, edition), |krate, visitor| {
-            let context = visitor.get_context();
-            krate
-                .items
-                .iter()
-                .filter_map(|item| crate::imports::verif_local::from_ast_raw(&context, item))
-                .map(|t| encode_tree(&t))
-                .collect()
-        })
+        with_parsed(
+            src,
+            &config_for(style_edition, edition),
+            |krate, visitor| {
+                let context = visitor.get_context();
+                krate
+                    .items
+                    .iter()
+                    .filter_map(|item| crate::imports::verif_local::from_ast_raw(&context, item))
+                    .map(|t| encode_tree(&t))
+                    .collect()
+            },
+        )
     }
 
     fn encode_item(item: &ast::Item) -> String {
